@@ -69,10 +69,18 @@ func TestC16(t *testing.T) {
 		}
 	}
 
+	for i := 0; i < r.N(60, 3000); i++ {
+		id := fmt.Sprintf("out/%d", i)
+		if r.Want(id) {
+			m.outboundCase(id)
+		}
+	}
+
 	if !r.Replaying() {
 		// floors on what must have been observed for the verdict to mean anything
 		need := map[string]int64{"cb_converted": int64(r.N(12, 600)), "cb_untouched_after_failed_conversion": int64(r.N(10, 500)), "cb_inner_error": int64(r.N(40, 2000)),
-			"fs_inner_success": int64(r.N(15, 150)), "fs_inner_error": int64(r.N(10, 100)), "fs_converted": int64(r.N(3, 30))}
+			"fs_inner_success": int64(r.N(15, 150)), "fs_inner_error": int64(r.N(10, 100)), "fs_converted": int64(r.N(3, 30)),
+			"out_refunds_compared": int64(r.N(5, 300)), "out_inner_error": int64(r.N(5, 300))}
 		for k, v := range need {
 			if m.cnt[k] < v {
 				r.Inconclusive("only %d events of kind %s observed (floor %d)", m.cnt[k], k, v)
